@@ -186,7 +186,7 @@ class Worker:
         finally:
             done.set()
             t.join()
-        if fault is not None and not f.fired:
+        if fault is not None and not f.fired and res[0] == 'ok':
             raise RuntimeError('fault %r did not fire (%d requests): %s' % (fault, f.count, desc))
         return res, f.count
 
@@ -200,6 +200,9 @@ class Worker:
         for fault in seq:
             (status, val), _ = self.query(sc, fault, desc)
             outcomes.append(val if status == 'exc' else 'ok')
+            if not self.faults.fired:       # failed before the point of the fault was reached: an UNdisturbed query failed
+                self.violation(L_LATER, desc, 'the query failed before fault %r was injected: %r' % (fault, outcomes))
+                break
             if status == 'exc' and val != 'InternalError':
                 self.violation(L_EXC + val, desc, 'outcomes of the disturbed queries: %r' % outcomes)
             elif status == 'ok' and val != base:
